@@ -6,6 +6,7 @@ open Proto KV
 /-! Line protocol of engine `kv` (C11).  Bytes tokens: `-` = empty, else parts joined by `.`, each part hex or
 `<hh>*<count>` (a repeated byte).  Paths: `/` = root, else bucket names joined by `/`.
 
+  cbatch P k:v:ok|err|panic,... (concurrent walletdb.Batch callers, distinct keys)
   reset | update | view | batch | beginrw | beginro | end ok|err|panic | drop | reopen | dump
   put P K V | get P K | del P K | mk P N | mkif P N | rmb P N | nb P N | each P [limit]
   seq P | setseq P n | nextseq P | copen c P | cfirst c | clast c | cnext c | cprev c | cseek c K | cdel c
@@ -168,6 +169,16 @@ def Kind.managed : Kind → Bool
   | .update | .view | .batch => true
   | _ => false
 
+def parseCall (p : Path) (s : String) : Option BatchCall :=
+  match s.splitOn ":" with
+  | [k, v, o] => do pure ⟨p, ← parseBytes k, ← parseBytes v, ← parseOutcome o⟩
+  | _ => none
+
+def showRes : Result → String
+  | .ok => "ok"
+  | .err e => s!"err:{showErr e}"
+  | .panic => "panic"
+
 def stepLine (w : World) (line : String) : World × String :=
   let t := words line
   match t with
@@ -183,6 +194,19 @@ def stepLine (w : World) (line : String) : World × String :=
     match w.cur with
     | some _ => (w, "busy")
     | none => (w, showDump w.db)
+  | ["cbatch", p, calls] =>
+    match parsePath p with
+    | none => (w, "bad-op")
+    | some p =>
+      if p.isEmpty then (w, "bad-op") else
+      match (calls.splitOn ",").mapM (parseCall p) with
+      | none => (w, "bad-op")
+      | some cs =>
+        match w.cur with
+        | some _ => (w, "busy")
+        | none =>
+          let (db, rs) := batchCalls w.db cs
+          ({ w with db }, "cb:" ++ joinWith "," (rs.map showRes))
   | ["end", o] =>
     match parseOutcome o, w.cur with
     | none, _ => (w, "bad-op")
